@@ -229,8 +229,8 @@ Lemma env_scan_cluster kp bs tail r : bools_ok bs = true ->
   env_scan kp ((45 :: bs ++ tail) :: r) =
   match env_cluster tail with
   | None => env_scan kp r
-  | Some (c, []) => match r with [] => HAsk | value :: r' => if N.eqb c 83 then HString (join [32] (value :: r')) else env_scan kp r' end
-  | Some (c, value) => if N.eqb c 83 then HString (join [32] (value :: r)) else env_scan kp r
+  | Some (c, []) => match r with [] => HAsk | value :: r' => if N.eqb c 83 then env_S value r' else env_scan kp r' end
+  | Some (c, value) => if N.eqb c 83 then env_S value r else env_scan kp r
   end.
 Proof.
   intros Hb H. destruct (body_head bs tail Hb H) as (x & body & E & Hx).
@@ -295,9 +295,9 @@ Lemma env_scan_long kp n r :
             if mem_str nm ENV_LONG_WITH_ARG && is_none v then
               match r with
               | [] => HAsk
-              | value :: r' => if is "split-string" nm then HString (join [32] (value :: r')) else env_scan kp r'
+              | value :: r' => if is "split-string" nm then env_S value r' else env_scan kp r'
               end
-            else if is "split-string" nm then HString (join [32] (oval v :: r))
+            else if is "split-string" nm then env_S (oval v) r
             else env_scan kp r
         | _ => HAsk
         end).
